@@ -24,7 +24,7 @@ ASSUMPTIONS = ["lattice, not continuum", "angle-and-axis arcs follow the right-h
 
 THETAS = [0.05, 0.3, 1.0, math.pi / 2, 2.0, 3.0, math.pi - 1e-3, math.pi, math.pi + 1e-3, 3.5, 4.5, 6.0, 2 * math.pi - 0.05]
 CENTRES = [(0.0, 0.0, 0.0), (1.5, -2.0, 0.7), (120.0, 340.0, -95.0)]
-RADII = [0.01, 0.1, 1.0, 10.0]
+RADII = [0.001, 0.01, 0.1, 1.0, 10.0, 1000.0]
 AXES = [(0, 0, 1), (1, 2, 3), (-2, 1, 0.5), (0.3, -1, 2), (1, 1, -1), (5, 0.1, 0.2)]
 FRACTIONS = [0.05 * k for k in range(1, 20)]
 
